@@ -110,6 +110,25 @@ Definition k_edit : str := s2l "edit".
 
 Definition range := (nat * nat * nat)%type.   (* sort key, lo, hi (exclusive) *)
 
+(* str::trim_end *)
+Fixpoint trim_end (s : str) : str :=
+  match s with
+  | [] => []
+  | c :: r => match trim_end r with
+              | [] => if is_ws c then [] else [c]
+              | r' => c :: r'
+              end
+  end.
+Definition ends_with_comma (t : str) : bool :=
+  match rev t with x :: _ => Ascii.eqb x c_comma | [] => false end.
+
+(* where the tail range of a `file( .. )` group starts: at a trailing comma inside the group, else at the `)` *)
+Definition tail_start (s : str) (o c : nat) : nat :=
+  match slice (S o) c s with          (* attr_str.get(open+1..close) *)
+  | Some inner => let t := trim_end inner in if ends_with_comma t then o + List.length t else c
+  | None => c
+  end.
+
 Definition get_range (s : str) (n : narg) : option (list range) :=
   if is_list n then
     match a_open n, a_close n with
@@ -119,7 +138,8 @@ Definition get_range (s : str) (n : narg) : option (list range) :=
         if str_eqb nm k_file then
           match slice (a_start n) (S o) s with
           | Some t => match find_sub k_file t with
-                      | Some fs => let fs' := fs + a_start n in Some [(fs', fs', S o); (c, c, S c)]
+                      | Some fs => let fs' := fs + a_start n in
+                                   let ts := tail_start s o c in Some [(fs', fs', S o); (ts, ts, S c)]
                       | None => None
                       end
           | None => None
